@@ -57,7 +57,8 @@ pub fn number_regex_parser(config: &SmartCalcConfig, tokinizer: &mut Tokinizer, 
                     true => decimal.as_str().to_string(),
                     false => decimal.as_str().replace(&config.thousand_separator[..], "").replace(&config.decimal_seperator[..], ".")
                 };
-                number = match decimal_text.parse::<f64>() {
+                /* A comma or point behind the last digit is punctuation ('march 2, 2023'), whatever the separators are */
+                number = match decimal_text.parse::<f64>().or_else(|_| decimal_text.trim_end_matches(|ch| ch == ',' || ch == '.').parse::<f64>()) {
                     Ok(num) => {
                         number_match = Some(decimal);
                         match capture.name("NOTATION") {
